@@ -29,11 +29,13 @@ func init() {
 		Rule: "per run the tape draws id source (cookie/header/query), storage (SimStorage / in-repo memory storage), idle and absolute timeouts, mode (sequential with shared ids and store-wide operations, or concurrent clients on disjoint sessions), " +
 			"2-4 clients x up to 8 requests; each request presents the client's current id, a stale id (destroyed / regenerated / reset / expired), a forged id, another client's id (sequential mode) or none, and runs a generated program " +
 			"(set/delete keys, Destroy, Reset, Regenerate, SetIdleTimeout, Save in the middle of a request, values gob cannot encode) through the middleware or the store API (Get+Save/Release, also twice per request, GetByID, Delete, Reset); the clock advances around the timeouts; a fault stratum (25 %) injects storage Get / Delete errors; every key handed to Storage.Set is checked to stay unchanged (zero-copy views of request buffers). " +
+			"About every fifth middleware / store-API request runs two program fragments as two tasks on the SAME *Session object (a goroutine the handler started): A = {0-2 Set/Delete, Save (store API)}, B = {Destroy | Regenerate | Reset, then maybe Set and Save}, interleaved at the session's and middleware's mutex operations and around every storage call; the model plays all orders of the calls and the ids involved are presented again by the following requests. " +
 			"distinct = hash of (configuration, per request (kind of presented id, expected live/fresh, program)); non-trivial = at least one stale or forged id was presented and one session outlived a request",
 		Assumptions: []string{
 			"probes within 2 s of an idle deadline accept either outcome (the storage clock has 1 s granularity); absolute deadlines are exact",
 			"session ids come from a counter-based KeyGenerator so that 'server-generated during this request' can be decided exactly; the default UUID generator is not exercised",
-			"in concurrent mode each session is used by one client at a time (concurrent writers to one session are last-writer-wins by design and not modelled)",
+			"in concurrent mode each session is used by one client at a time (concurrent requests writing to one session are last-writer-wins by design and not modelled)",
+			"two goroutines on one *Session object: every call (Set, Delete, Save, Destroy, Regenerate, Reset) is taken as indivisible and the calls of the two fragments may interleave in any order; what a later request sees under the old and under the new id must be what one of these orders leaves behind. A Save that comes after a Destroy in such an order stores the session again under the same id with the data set since the Destroy (this is what the session object does sequentially, too); only data from before the Destroy must not come back. With an absolute timeout configured the store-API pair Destroy || Save is not generated (Destroy clears the absolute deadline together with the data; which deadline a session saved again afterwards has is left open)",
 			"after an injected storage error that the operation reported (or that made the middleware panic) the run stops following that history; only 'never run under the presented id' is required of the failed request",
 			"the storage under test always receives a private copy of the key (KeyGuard): a key that changes after Storage.Set is reported by its own oracle, its consequences (which depend on Go's per-map hash seed) are not played out",
 		},
@@ -93,6 +95,7 @@ type sessPending struct {
 	retired bool         // the id is the one Destroy / Regenerate / Reset of that request retired
 	by      int          // op id
 	what    string
+	save    bool // one of the fragments called Save (store API): a Save may have overlapped the retiring call
 }
 
 // a type that is never registered with gob: saving a session holding it fails
@@ -461,7 +464,7 @@ func sessionMain(s *simrt.Sim, info *harness.RunInfo) {
 	h := newHasher().str(cfgLine)
 
 	// one request: generate, execute, check against the model, update the model
-	doRequest := func(ci int, conn *harness.Conn) {
+	request := func(ci int, conn *harness.Conn) {
 		cs := clients[ci]
 		op := &sessOp{id: len(ops), client: ci}
 		ops = append(ops, op)
@@ -634,7 +637,7 @@ func sessionMain(s *simrt.Sim, info *harness.RunInfo) {
 			// panics), but it must not run under the id the client chose
 			s.Count("fault_session_get_error_requests")
 			if op.panicked == "" && resp != nil {
-				if op.obs.ID != "" && op.obs.ID == op.present && status(op.present, op.start) == dead {
+				if op.obs.ID != "" && op.obs.ID == op.present && status(op.present, op.start) == dead && pending[op.present] == nil {
 					s.Fail("C15.adopted-client-id", "op%d: the storage lookup failed and the session runs under the presented id %q, which the server does not hold", op.id, op.present)
 				}
 			}
@@ -678,6 +681,73 @@ func sessionMain(s *simrt.Sim, info *harness.RunInfo) {
 		for _, g := range op.genIDs {
 			gen[g] = true
 		}
+		isLive := !op.obs.Fresh && op.obs.ID == op.present && op.present != ""
+		// with the store API used twice in one request the observed (second) Get may
+		// already see the session the first Get created and saved: not "fresh" any more
+		isNew := (op.obs.Fresh || (op.twice && op.route == "store")) && len(op.obs.Data) == 0 && op.obs.ID != op.present && gen[op.obs.ID]
+		// an id that a request with concurrent fragments left in one of several allowed states: this
+		// observation decides which one it was (or that it was none of them)
+		switch pkey := map[bool]string{false: op.present, true: op.targetID}[op.route == "byid" || op.route == "delete"]; {
+		case op.route == "resetall":
+			for k := range pending {
+				delete(pending, k)
+			}
+		case pending[pkey] == nil:
+		case op.route == "delete":
+			delete(pending, pkey)
+		case op.route != "byid" && op.obs.ID == "":
+			// the request failed before the handler saw a session: reported below
+			delete(pending, pkey)
+		default:
+			pd := pending[pkey]
+			delete(pending, pkey)
+			fits := func(v verdict, m *sessModel) bool {
+				sawIt, sawNone := isLive && m != nil && sameData(op.obs.Data, m.data), isNew
+				if op.route == "byid" {
+					sawIt = op.obs.Err == "" && op.obs.ID == pkey && m != nil && sameData(op.obs.Data, m.data)
+					sawNone = op.obs.Err == "notfound"
+				}
+				switch v {
+				case alive:
+					return sawIt
+				case dead:
+					return sawNone
+				}
+				return sawIt || sawNone
+			}
+			found := false
+			var allowed []string
+			for _, alt := range pd.alts {
+				if alt == nil {
+					delete(live, pkey)
+					allowed = append(allowed, "no session")
+				} else {
+					live[pkey] = alt
+					allowed = append(allowed, fmt.Sprintf("session with data %v", alt.data))
+				}
+				if fits(status(pkey, op.start), live[pkey]) {
+					found = true
+					break
+				}
+			}
+			if !found {
+				delete(live, pkey)
+				switch {
+				case pd.retired && op.obs.ID == pkey && !pd.save:
+					s.Fail("C15.stale-id-yields-session", "op%d %s presented %q (%s), the id that op%d retired (%s, two goroutines on one *Session object, all calls returned nil). In every order of these calls the id afterwards yields one of [%s], yet this request saw id=%q fresh=%v data=%v err=%q",
+						op.id, op.route, pkey, op.presKind, pd.by, pd.what, strings.Join(allowed, " | "), op.obs.ID, op.obs.Fresh, op.obs.Data, op.obs.Err)
+				case pd.retired && op.obs.ID == pkey:
+					s.Fail("C15.concurrent-save-revives-retired-id", "op%d %s presented %q, the id that op%d retired (%s) on the same *Session object on which another goroutine ran Save; all calls returned nil. In every order of these calls the id afterwards yields one of [%s], yet this request saw id=%q fresh=%v data=%v err=%q: a Save that overlapped the Destroy / Regenerate / Reset has put the session back under the retired id",
+						op.id, op.route, pkey, pd.by, pd.what, strings.Join(allowed, " | "), op.obs.ID, op.obs.Fresh, op.obs.Data, op.obs.Err)
+				default:
+					s.Fail("C15.data-after-concurrent-calls", "op%d %s presented %q, which op%d left behind (%s, two goroutines on one *Session object, all calls returned nil). In every order of these calls the id afterwards yields one of [%s], yet this request saw id=%q fresh=%v data=%v err=%q",
+						op.id, op.route, pkey, pd.by, pd.what, strings.Join(allowed, " | "), op.obs.ID, op.obs.Fresh, op.obs.Data, op.obs.Err)
+				}
+				return
+			}
+			s.Count("probe_concurrent_outcome_resolved")
+			pre = status(pkey, op.start)
+		}
 		mstate := live[op.present]
 		switch op.route {
 		case "mw", "store":
@@ -685,10 +755,6 @@ func sessionMain(s *simrt.Sim, info *harness.RunInfo) {
 				s.Fail("C15.error", "op%d %s failed: %s", op.id, op.route, op.obs.Err)
 				return
 			}
-			isLive := !op.obs.Fresh && op.obs.ID == op.present && op.present != ""
-			// with the store API used twice in one request the observed (second) Get may
-			// already see the session the first Get created and saved: not "fresh" any more
-			isNew := (op.obs.Fresh || (op.twice && op.route == "store")) && len(op.obs.Data) == 0 && op.obs.ID != op.present && gen[op.obs.ID]
 			switch {
 			case pre == alive && !isLive:
 				s.Fail("C15.persistent", "op%d presented live session %q (data %v): handler saw id=%q fresh=%v data=%v", op.id, op.present, mstate.data, op.obs.ID, op.obs.Fresh, op.obs.Data)
@@ -743,6 +809,190 @@ func sessionMain(s *simrt.Sim, info *harness.RunInfo) {
 				}
 				gi++
 				return op.genIDs[gi-1], true
+			}
+			if op.par {
+				// Two goroutines used the same *Session object. Each call (Set, Delete, Save, Destroy, Regenerate,
+				// Reset) is taken as one indivisible step; the two fragments may interleave in any way. The model
+				// plays every interleaving and collects what each leaves behind for the id the request started
+				// with (X) and for the id Regenerate / Reset generated (Y).
+				if op.obs.Err != "" {
+					s.Fail("C15.error", "op%d %s: a call of the concurrent fragments failed without an injected fault: %s", op.id, op.route, op.obs.Err)
+					return
+				}
+				idX, idY := curID, ""
+				if k := op.fragB[0].kind; k == "regen" || k == "reset" {
+					var ok bool
+					if idY, ok = nextID(); !ok {
+						s.Fail("C15.new-id", "op%d: Reset/Regenerate did not generate a new session id (generated in this request: %v)", op.id, op.genIDs)
+						return
+					}
+				}
+				type parState struct {
+					data      map[string]string
+					absUntil  time.Time
+					id        string
+					recs      map[string]*sessModel // stored (non-nil) or deleted (nil) by this request
+					emit      string
+					destroyed bool
+				}
+				clone := func(st parState) parState {
+					c := st
+					c.data = copyData(st.data)
+					c.recs = map[string]*sessModel{}
+					for k, v := range st.recs {
+						c.recs[k] = v
+					}
+					return c
+				}
+				save := func(st *parState) {
+					st.recs[st.id] = &sessModel{data: copyData(st.data), absUntil: st.absUntil, idleUntil: op.end.Add(idle)}
+					st.emit = st.id
+				}
+				apply := func(st *parState, step sessStep) {
+					switch step.kind {
+					case "set":
+						st.data[step.k] = step.v
+					case "del":
+						delete(st.data, step.k)
+					case "save":
+						if op.route == "store" { // through the middleware Save is left to the end of the request
+							save(st)
+						}
+					case "destroy":
+						st.data = map[string]string{}
+						st.absUntil = time.Time{}
+						st.recs[st.id] = nil
+						st.emit = "-"
+						st.destroyed = true
+					case "regen":
+						st.recs[st.id] = nil
+						st.id = idY
+					case "reset":
+						st.data = map[string]string{}
+						st.absUntil = time.Time{}
+						if abs > 0 {
+							st.absUntil = op.start.Add(abs)
+						}
+						st.recs[st.id] = nil
+						st.emit = "-"
+						st.id = idY
+					}
+				}
+				var outs []parState
+				var play func(i, j int, st parState)
+				play = func(i, j int, st parState) {
+					if i == len(op.fragA) && j == len(op.fragB) {
+						if op.route == "mw" && !st.destroyed {
+							save(&st)
+						}
+						outs = append(outs, st)
+						return
+					}
+					if i < len(op.fragA) {
+						c := clone(st)
+						apply(&c, op.fragA[i])
+						play(i+1, j, c)
+					}
+					if j < len(op.fragB) {
+						c := clone(st)
+						apply(&c, op.fragB[j])
+						play(i, j+1, c)
+					}
+				}
+				play(0, 0, parState{data: copyData(cur.data), absUntil: cur.absUntil, id: idX, recs: map[string]*sessModel{}})
+				endID := outs[0].id
+				if op.obs.EndID != endID {
+					s.Fail("C15.new-id", "op%d: the session id after the concurrent fragments is %q, expected %q (ids generated in this request: %v)", op.id, op.obs.EndID, endID, op.genIDs)
+					return
+				}
+				// what the client was told: the last of the calls that write the cookie / header
+				emitOK := false
+				var emits []string
+				for _, o := range outs {
+					emits = append(emits, o.emit)
+					if o.emit == op.emitted || (source == "header" && (o.emit == "-" || o.emit == "") && (op.emitted == "" || op.emitted == "-")) {
+						emitOK = true
+					}
+				}
+				if op.emitted == "-" && mstate != nil && !mstate.absUntil.IsZero() && op.start.After(mstate.absUntil) {
+					emitOK = true // the presented session had passed its absolute deadline (see below)
+				}
+				if !emitOK {
+					s.Fail("C15.emitted-id", "op%d (concurrent fragments A=%v B=%v): the response hands out %q; the last call that tells the client an id leaves one of %q", op.id, op.fragA, op.fragB, op.emitted, emits)
+					return
+				}
+				what := fmt.Sprintf("A=%v B=%v", op.fragA, op.fragB)
+				hadSave := false
+				for _, st := range append(append([]sessStep{}, op.fragA...), op.fragB...) {
+					hadSave = hadSave || (st.kind == "save" && op.route == "store")
+				}
+				nalts := 0
+				for _, id := range []string{idX, idY} {
+					if id == "" {
+						continue
+					}
+					var alts []*sessModel
+					seen := map[string]bool{}
+					for _, o := range outs {
+						alt, touched := o.recs[id]
+						if !touched && id == idX && wasLive {
+							alt = mstate
+						}
+						key := "none"
+						if alt != nil {
+							ks := make([]string, 0, len(alt.data))
+							for k := range alt.data {
+								ks = append(ks, k)
+							}
+							sort.Strings(ks)
+							key = alt.absUntil.String()
+							for _, k := range ks {
+								key += "|" + k + "=" + alt.data[k]
+							}
+						}
+						if !seen[key] {
+							seen[key] = true
+							alts = append(alts, alt)
+						}
+					}
+					nalts += len(alts)
+					delete(pending, id)
+					// also with a single outcome the id is resolved by its next observation, so that a
+					// mismatch is reported with the calls that led to it
+					delete(live, id)
+					pending[id] = &sessPending{alts: alts, retired: id == idX, by: op.id, what: what, save: hadSave}
+					if len(alts) > 1 {
+						s.Count("probe_concurrent_fragments_with_several_outcomes")
+					}
+					if s.Tracing() {
+						for _, a := range alts {
+							if a == nil {
+								s.Logf("op%d model: %q may yield no session", op.id, id)
+							} else {
+								s.Logf("op%d model: %q may yield data %v", op.id, id, a.data)
+							}
+						}
+					}
+				}
+				s.Count("probe_concurrent_fragments_on_one_session")
+				if wasLive && len(mstate.data) > 0 {
+					s.Count("probe_concurrent_fragments_on_loaded_session_with_data")
+				}
+				cs := clients[ci]
+				for _, id := range []string{cs.current, op.present, idX} {
+					if id != "" && id != endID {
+						cs.stale = append(cs.stale, id)
+					}
+				}
+				if op.presKind != "other" {
+					cs.current = endID
+				}
+				cs.probe = append(cs.probe, idX)
+				if idY != "" {
+					cs.probe = append(cs.probe, idY)
+				}
+				h.str(op.route).str("par").str(op.fragB[0].kind).int(len(op.fragA)).int(len(op.fragB)).int(nalts).int(int(pre))
+				return
 			}
 			idleFor := idle
 			destroyed := false
@@ -921,6 +1171,13 @@ func sessionMain(s *simrt.Sim, info *harness.RunInfo) {
 		h.str(op.route).str(op.presKind).int(int(pre)).int(len(op.prog))
 	}
 
+	doRequest := func(ci int, conn *harness.Conn) {
+		request(ci, conn)
+		// the ids a request with concurrent fragments touched are mostly looked at right away
+		for len(clients[ci].probe) > 0 && !s.Failed() && !stopped && s.Chance(750) {
+			request(ci, conn)
+		}
+	}
 	thinks := []time.Duration{0, 0, 500 * time.Millisecond, idle - 2500*time.Millisecond, idle + 2500*time.Millisecond}
 	if abs > 0 {
 		thinks = append(thinks, abs-idle+500*time.Millisecond)
